@@ -80,11 +80,12 @@ def failing_modules(out):
     return sorted(mods)
 
 
-def audit(prop):
+def audit(prop, modules=None):
     """run `#audit EqsigVerif.Props.<prop>`; returns list of dicts"""
     os.makedirs(WORK, exist_ok=True)
     f = os.path.join(WORK, f'Audit_{prop}_{os.getpid()}.lean')
-    open(f, 'w').write(f"import EqsigVerif.Props.{prop}\nimport EqsigVerif.Audit\n#audit EqsigVerif.Props.{prop}\n")
+    modules = modules or [prop]
+    open(f, 'w').write("".join(f"import EqsigVerif.Props.{m}\n" for m in modules) + f"import EqsigVerif.Audit\n#audit EqsigVerif.Props.{prop}\n")
     try:
         rc, out = sh(['lake', 'env', 'lean', f], cwd=LEAN_DIR)
     finally:
@@ -109,13 +110,15 @@ def load_lock():
         return {}
 
 
-def prepare(prop, tier, extra_targets=()):
+def prepare(prop, tier, extra_targets=(), modules=None):
     """translate, build Props.<prop> + driver, audit. Returns a dict describing the proof status:
        {ok, obligations, discharged, theorems:[…], problems:[…], fallback:[…], build_s, checker_cmd}"""
     t0 = time.time()
     res = {'ok': True, 'problems': [], 'fallback': [], 'theorems': [], 'obligations': 0, 'discharged': 0,
            'untranslatable': []}
-    targets = [f'EqsigVerif.Props.{prop}', 'EqsigVerif.Audit', 'eqsig_driver'] + list(extra_targets)
+    modules = list(modules or [prop])
+    prop_targets = [f'EqsigVerif.Props.{m}' for m in modules]
+    targets = prop_targets + ['EqsigVerif.Audit', 'eqsig_driver'] + list(extra_targets)
     res['checker_cmd'] = (f"python3 tools/py2lean.py --repo {REPO} && cd lean && lake build {' '.join(targets)} && "
                           f"lake env lean <(#audit EqsigVerif.Props.{prop})" + (" && lake env leanchecker <modules>" if tier == 'thorough' else ""))
     with BuildLock():
@@ -144,7 +147,7 @@ def prepare(prop, tier, extra_targets=()):
                 res['driver_ok'] = False
             else:
                 res['driver_ok'] = True
-            rc3, out3 = lake_build([f'EqsigVerif.Props.{prop}'])
+            rc3, out3 = lake_build(prop_targets)
             res['props_build_with_golden'] = (rc3 == 0)
             res['ok'] = False
         else:
@@ -156,7 +159,7 @@ def prepare(prop, tier, extra_targets=()):
         lock = load_lock().get(prop, {})
         rows = []
         if rc == 0 or res.get('props_build_with_golden'):
-            arc, aout, rows = audit(prop)
+            arc, aout, rows = audit(prop, modules)
             if arc != 0 and not rows:
                 res['problems'].append({'kind': 'audit-failed', 'detail': aout[-2000:]})
                 res['ok'] = False
@@ -201,7 +204,7 @@ def prepare(prop, tier, extra_targets=()):
             res['ok'] = False
             res['problems'].append({'kind': 'no-theorems', 'detail': f'no theorem found in EqsigVerif.Props.{prop}'})
         if tier == 'thorough' and rc == 0:
-            mods = [f'EqsigVerif.Props.{prop}']
+            mods = prop_targets
             lrc, lout = sh(['lake', 'env', 'leanchecker'] + mods, cwd=LEAN_DIR, timeout=3600)
             res['leanchecker'] = {'rc': lrc, 'tail': lout[-500:]}
             if lrc != 0:
@@ -211,15 +214,26 @@ def prepare(prop, tier, extra_targets=()):
     return res
 
 
+def prop_modules(prop):
+    sys.path.insert(0, os.path.join(VERIF, 'harness', 'props'))
+    try:
+        import importlib
+        m = importlib.import_module(prop.lower())
+        return list(getattr(m, 'PROP_MODULES', [prop]))
+    except Exception:
+        return [prop]
+
+
 def update_lock(props):
     """(maintenance) pin the statement hashes of all theorems currently in the given Props namespaces"""
     lock = load_lock()
     for prop in props:
-        rc, out = lake_build([f'EqsigVerif.Props.{prop}', 'EqsigVerif.Audit'])
+        mods = prop_modules(prop)
+        rc, out = lake_build([f'EqsigVerif.Props.{m}' for m in mods] + ['EqsigVerif.Audit'])
         if rc != 0:
             print(out[-3000:])
             raise SystemExit(f"build failed for {prop}")
-        arc, aout, rows = audit(prop)
+        arc, aout, rows = audit(prop, mods)
         lock[prop] = {r['name']: r['type_hash'] for r in rows}
         print(prop, len(rows), 'theorems pinned')
         bad = [r['name'] for r in rows if any(a not in ALLOWED_AXIOMS for a in r['axioms'])]
